@@ -16,6 +16,7 @@ import (
 
 	"verif/internal/harness"
 	"verif/internal/osmdoc"
+	"verif/internal/pbfgen"
 )
 
 func TestMain(m *testing.M) { harness.Main(m, "C03") }
@@ -44,6 +45,11 @@ func scanDiff(text string, want []osmdoc.Item) string {
 		if d := cmp.ObjectDiff(got[i], want[i]); d != "" {
 			return fmt.Sprintf("scanner object %d (%s): %s", i, want[i].Kind(), d)
 		}
+	}
+	// scanned objects are values of their own: appending to the tag, node or
+	// member list of one changes no other
+	if d := pbfgen.AppendIndependence(got); d != "" {
+		return "scanner: " + d
 	}
 	return ""
 }
